@@ -1051,6 +1051,216 @@ def conversions(chk, n):
                      {"part": "c2p", "counts": counts})
 
 
+
+# ------------------------------------------------------------------------------------------------
+# B3. the conversions that DRAW samples, with the picks of `random.choices` scripted
+# ------------------------------------------------------------------------------------------------
+def conv_states(rng, k):
+    """k distinct two-/three-mode states, the vacuum among them half of the time."""
+    from perceval.utils import BasicState
+    m = rng.choice([2, 3])
+    seen, out = set(), []
+    if rng.random() < 0.5:
+        seen.add((0,) * m)
+        out.append((0,) * m)
+    while len(out) < k:
+        st = tuple(rng.choice([0, 0, 1, 2]) for _ in range(m))
+        if st not in seen:
+            seen.add(st)
+            out.append(st)
+    rng.shuffle(out)
+    return [BasicState(list(st)) for st in out]
+
+
+def run_drawing(case):
+    """One drawing conversion on the real code with `random.choices` scripted -> (observation, draws used)."""
+    from perceval.utils import BasicState, BSDistribution, BSCount
+    from perceval.utils import conversion
+    import random as pyrandom_mod
+    states = [BasicState(list(st)) for st in case["states"]]
+    used = {"draws": None, "k": None, "n_states": None}
+
+    def fake_choices(population, weights=None, *, cum_weights=None, k=1):
+        pop = list(population)
+        ws = list(weights) if weights is not None else None
+        if ws is not None and sum(ws) <= 0:
+            raise ValueError("Total of weights must be greater than zero")
+        idx = [case["stream"][i % len(case["stream"])] % len(pop) for i in range(k)]
+        used["draws"], used["k"], used["n_states"] = idx, k, len(pop)
+        used["order"] = [tuple(s) for s in pop]
+        return [pop[i] for i in idx]
+
+    kw = {}
+    if case["max_shots"] is not None:
+        kw["max_shots"] = case["max_shots"]
+    if case["max_samples"] is not None:
+        kw["max_samples"] = case["max_samples"]
+    obs = {}
+    try:
+        with mock.patch.object(pyrandom_mod, "choices", fake_choices):
+            if case["fn"] == "sample":
+                d = BSDistribution()
+                for st, w in zip(states, case["weights"]):
+                    d[st] = float(F(w))
+                res = d.sample(case["count"], non_null=case["non_null"])
+            elif case["fn"] == "p2s":
+                d = BSDistribution()
+                for st, w in zip(states, case["weights"]):
+                    d[st] = float(F(w))
+                res = conversion.probs_to_samples(d, case["count"], **kw)
+            else:
+                t = BSCount()
+                for st, c in zip(states, case["counts"]):
+                    t[st] = c
+                res = conversion.sample_count_to_samples(t, case["count"], **kw)
+        obs["samples"] = [tuple(s) for s in res]
+    except Exception as e:  # noqa: BLE001
+        obs["raise"] = type(e).__name__
+    return obs, used
+
+
+def judge_drawing(chk, case):
+    obs, used = run_drawing(case)
+    keys = [tuple(st) for st in case["states"]]
+    vac = [sum(st) == 0 for st in keys]
+    replay = {"part": "drawing", "case": case}
+    # the model indexes the states taking part in table order; the code hands `random.choices` its own key order
+    draws = None
+    if used["draws"] is not None:
+        if case["fn"] == "sc2s":
+            part = [i for i, st in enumerate(keys) if case["counts"][i] != 0 and not vac[i]]
+        else:
+            nn = True if case["fn"] == "p2s" else case["non_null"]
+            part = [i for i, st in enumerate(keys) if not (nn and vac[i])]
+        if sorted(used["order"]) != sorted(keys[i] for i in part):
+            return ("broken", "drawing:states-taking-part", f"{case['fn']}: random.choices was handed "
+                                                           f"{used['order']}, the model lets {[keys[i] for i in part]} "
+                                                           f"take part", replay)
+        draws = [part.index(keys.index(used["order"][j])) for j in used["draws"]]
+    if case["fn"] == "sample":
+        req = {"op": "sampledist", "vac": vac, "non_null": case["non_null"], "present": [True] * len(keys),
+               "weights": [core.rat(float(F(w))) for w in case["weights"]], "count": case["count"]}
+    elif case["fn"] == "p2s":
+        req = {"op": "p2s", "vac": vac, "probs": [core.rat(float(F(w))) for w in case["weights"]],
+               "count": case["count"], "max_shots": case["max_shots"], "max_samples": case["max_samples"]}
+    else:
+        req = {"op": "sc2s", "vac": vac, "counts": case["counts"], "count": case["count"],
+               "max_shots": case["max_shots"], "max_samples": case["max_samples"]}
+    if draws is None:
+        # the code never reached `random.choices`: ask the model with no draw at all
+        req["draws"] = []
+    else:
+        req["draws"] = draws
+    rep = chk.lean.ask(req)
+    # direct oracle: the request is honoured exactly, every sample is a state of the table
+    if "samples" in obs:
+        want = case["count"]
+        if want is None and case["fn"] != "sample":
+            lim = [x for x in (case["max_samples"], case["max_shots"]) if x is not None]
+            if len(lim) == 2:
+                want = min(lim)
+            elif len(lim) == 1 and lim[0]:
+                want = lim[0]
+            elif not lim and case["fn"] == "sc2s":
+                want = sum(case["counts"])
+            # a single limit equal to 0 is left to the model (`max_shots or max_samples` treats 0 as absent)
+        if want is not None and len(obs["samples"]) != want:
+            return ("violation", "drawing:wrong-number-of-samples",
+                    f"{case['fn']} asked for {want} samples returned {len(obs['samples'])}", replay)
+        ok_keys = set(keys) if case["fn"] != "sc2s" else {k for k, c in zip(keys, case["counts"]) if c}
+        bad = [s for s in obs["samples"] if s not in ok_keys]
+        if bad:
+            return ("violation", "drawing:foreign-sample", f"{case['fn']} returned {bad[0]}, not a state of the table",
+                    replay)
+    if "raise" in obs:
+        chk.branch("drawing-raise:" + obs["raise"])
+        if rep.get("raise") != obs["raise"]:
+            return ("broken", "drawing:model-vs-code", f"{case['fn']}: code raised {obs['raise']}, model {rep}", replay)
+        return None
+    if "ok" not in rep or [keys[i] for i in rep["ok"]] != obs["samples"]:
+        return ("broken", "drawing:model-vs-code", f"{case['fn']}: code {obs['samples'][:8]}, model {rep}", replay)
+    chk.branch("drawing-" + case["fn"])
+    if any(vac) and (case["fn"] != "sample" or case["non_null"]):
+        chk.branch("drawing-vacuum-left-out")
+    if case["fn"] == "sc2s" and case["count"] is None and case["max_shots"] is None and case["max_samples"] is None:
+        chk.branch("drawing-count-from-table-total")
+    return None
+
+
+def gen_drawing(rng):
+    k = rng.randint(1, 5)
+    states = [list(s) for s in conv_states(rng, k)]
+    fn = rng.choice(["sample", "p2s", "sc2s"])
+    case = {"fn": fn, "states": states, "stream": [rng.randrange(10 ** 6) for _ in range(rng.randint(1, 12))],
+            "count": None, "max_shots": None, "max_samples": None, "non_null": rng.random() < 0.6}
+    ws = [F(rng.choice([0, 1, 1, 2, 3, 7])) for _ in range(k)]
+    tot = sum(ws)
+    case["weights"] = [str(w / tot) if tot else "0" for w in ws]
+    case["counts"] = [rng.choice([0, 0, 1, 2, 5, 40]) for _ in range(k)]
+    r = rng.random()
+    if fn == "sample" or r < 0.5:
+        case["count"] = rng.choice([0, 1, 2, 3, 10, 50])
+    elif r < 0.65:
+        case["max_shots"] = rng.choice([0, 1, 5, 20])
+    elif r < 0.8:
+        case["max_samples"] = rng.choice([0, 1, 5, 20])
+    elif r < 0.9:
+        case["max_shots"], case["max_samples"] = rng.choice([0, 3, 9]), rng.choice([0, 4, 7])
+    return case
+
+
+def drawing_part(chk, n):
+    from perceval.utils import BSSamples
+    from perceval.utils import conversion
+    rng = chk.rng
+    for _ in range(n):
+        case = gen_drawing(rng)
+        res = judge_drawing(chk, case)
+        chk.case(("D", case["fn"], tuple(map(tuple, case["states"])), case["count"], case["max_shots"],
+                  case["max_samples"], tuple(case["stream"][:4])), nontrivial=len(case["states"]) >= 2)
+        if res is not None:
+            chk.fail(*res)
+    # the round trip counts -> probabilities -> counts with the perturbation switched off gives the table back
+    # (theorem counts_probs_counts_roundtrip), on the real code
+    import numpy as np
+    from perceval.utils import BSCount
+    for _ in range(max(20, n // 10)):
+        k = rng.randint(1, 6)
+        keys = key_states(k)
+        counts = [rng.choice([0, 0, 1, 2, 3, 10, 1000, 12345]) for _ in range(k)]
+        if sum(counts) == 0:
+            counts[0] = rng.choice([1, 7])
+        table = BSCount()
+        for st, c in zip(keys, counts):
+            table[st] = c
+        with mock.patch.object(np.random, "normal", lambda *a, **kw: 0.0):
+            back = conversion.probs_to_sample_count(conversion.sample_count_to_probs(table), sum(counts))
+        got = [int(back[st]) if st in back else 0 for st in keys]
+        chk.branch("roundtrip-counts-probs-counts")
+        chk.case(("Dr", tuple(counts)), nontrivial=sum(1 for c in counts if c) >= 2)
+        if got != counts:
+            chk.fail("broken", "conv:roundtrip", f"counts {counts} -> probabilities -> counts (no perturbation) gives "
+                                                 f"{got}", {"part": "s2p", "counts": counts})
+    # samples_to_probs = sample_count_to_probs . samples_to_sample_count
+    for _ in range(max(20, n // 10)):
+        k = rng.randint(1, 5)
+        keys = key_states(k)
+        samples = [rng.randrange(k) for _ in range(rng.choice([1, 2, 5, 30]))]
+        pr = conversion.samples_to_probs(BSSamples([keys[i] for i in samples]))
+        rep = chk.lean.ask({"op": "s2p", "n": k, "samples": samples})
+        got = [pr[s] if s in pr else None for s in keys]
+        want = rep.get("probs")
+        chk.branch("samples->probs")
+        chk.case(("Dp", k, tuple(samples[:20])), nontrivial=len(samples) >= 2)
+        if not core.close(sum(g for g in got if g is not None), 1.0):
+            chk.fail("violation", "conv:probs-total", f"samples_to_probs of {len(samples)} samples sums to "
+                                                      f"{sum(g for g in got if g is not None)}",
+                     {"part": "s2p", "k": k, "samples": samples})
+        elif want is None or any((g is None) != (w is None) or (g is not None and not core.close(g, float(F(w))))
+                                 for g, w in zip(got, want)):
+            chk.fail("broken", "conv:model-vs-code", f"samples_to_probs: code {got}, model {rep}",
+                     {"part": "s2p", "k": k, "samples": samples})
+
 # ------------------------------------------------------------------------------------------------
 # B2. DIRECT ORACLE with the real random generators: totals of every conversion
 # ------------------------------------------------------------------------------------------------
@@ -2990,26 +3200,86 @@ def classify_full(call, st):
 
 
 def oracle_replay(call, rec, obs):
-    """The property on the recorded run, without the model: every shot uses one not yet used backend draw per
-    component of its input (a pool is emptied from its end, as documented for `sample_from`), the detectors see the
-    merge, the returned samples are the selected shots in order with the heralded modes removed, the performances
-    are the observed frequencies.  -> None or (signature, what)."""
+    """The property on the recorded run, without the model.  -> (kind, signature, what) or None.
+    'violation' (order-insensitive necessary conditions): the returned samples are the selected shots among the
+    states the detectors returned, in order, with the heralded modes removed; the performances are the observed
+    frequencies (times the pre-performance of the input); a shot holds exactly the photons of its input; a shot of a
+    one-component input is a draw the backend really made for that input, each draw used once; PNR / threshold
+    detection is the deterministic map; at most max_shots shots when the limit is not rescaled.
+    'broken' (documented order of `sample_from`: a pool is emptied from its end before it is refilled): the state
+    handed to the detectors is the merge of the next unused draws of its components."""
     if "raise" in obs or obs.get("path_fast"):
         return None
     dets = call["dets"]
     if not dets:
         return None        # without a detector list the shots are not observable one by one
     her = call["heralds"]
-    batches = {}
-    for key, _n, outs in rec["backend"]:
-        batches.setdefault(tuple(key), []).append(list(outs))
-    pools = {}
     inputs = [c for _cnt, b in rec["gens"] for c in b]
     mode = det_mode_of(dets)
-    expected, cls = [], {"p": 0, "l": 0, "s": 0}
+    eff = call["filter"] + sum(her.values())
     if len(rec["det"]) > len(inputs):
-        return ("replay:more-shots-than-inputs", f"{len(rec['det'])} shots for {len(inputs)} emitted inputs")
+        return ("violation", "replay:more-shots-than-inputs", f"{len(rec['det'])} shots for {len(inputs)} emitted "
+                                                              f"inputs")
+    if call["sh"] is not None:
+        bound = call["sh"]
+        if eff >= 2:
+            # documented rescaling of the shot limit: max_shots * P(n >= filter | n > 0), rounded up
+            if isinstance(call["svd"], tuple):
+                pre_, zpp_ = (rec["table"][0][2], rec["table"][0][3]) if rec["table"] else (1.0, 0.0)
+            else:
+                pre_ = 1 - sum(float(p) for sv, p in call["svd"].items() if sv[0].n < eff)
+                zpp_ = sum(float(p) for sv, p in call["svd"].items() if sv[0].n == 0)
+            bound = math.ceil(call["sh"] * pre_ / (1 - zpp_) + 1e-9) if zpp_ != 1 else None
+        if bound is not None and len(rec["det"]) > bound:
+            return ("violation", "replay:more-shots-than-max_shots",
+                    f"{len(rec['det'])} shots taken, max_shots={call['sh']} (limit after the documented rescaling: "
+                    f"{bound})")
+    expected, cls = [], {"p": 0, "l": 0, "s": 0}
+    avail = {}
+    for key, _n, outs in rec["backend"]:
+        d = avail.setdefault(tuple(key), {})
+        for o in outs:
+            d[tuple(o)] = d.get(tuple(o), 0) + 1
     for j, (seen_in, seen_out) in enumerate(rec["det"]):
+        comps = inputs[j]
+        if sum(seen_in) != sum(sum(c) for c in comps):
+            return ("violation", "replay:shot-loses-or-gains-photons",
+                    f"shot {j}: input components {comps} hold {sum(sum(c) for c in comps)} photons, the sampled state "
+                    f"{seen_in} holds {sum(seen_in)}")
+        if len(comps) == 1 and sum(comps[0]) > 0:
+            d = avail.get(tuple(comps[0]), {})
+            if d.get(tuple(seen_in), 0) <= 0:
+                return ("violation", "replay:draw-used-twice-or-never-made",
+                        f"shot {j}: {seen_in} is not an unused output the backend drew for input {comps[0]}")
+            d[tuple(seen_in)] -= 1
+        if mode == "none" and list(seen_out) != list(seen_in):
+            return ("violation", "replay:pnr-detection-changes-state", f"shot {j}: {seen_in} -> {seen_out}")
+        if mode == "threshold" and list(seen_out) != [min(1, x) for x in seen_in]:
+            return ("violation", "replay:threshold-detection-wrong", f"shot {j}: {seen_in} -> {seen_out}")
+        c = classify_full(call, list(seen_out))
+        cls[c] += 1
+        if c == "s":
+            expected.append([x for i, x in enumerate(seen_out) if call["keep"] or i not in her])
+    if obs["results"] != expected:
+        return ("violation", "replay:samples-are-not-the-selected-shots",
+                f"returned {obs['results'][:6]}… ({len(obs['results'])}), the selected shots are {expected[:6]}… "
+                f"({len(expected)})")
+    if cls["s"]:
+        pre = F(rec["table"][0][2]) if isinstance(call["svd"], tuple) and rec["table"] else None
+        if pre is None and not isinstance(call["svd"], tuple):
+            pre = F(1) - sum((F(float(p)) for sv, p in call["svd"].items() if sv[0].n < eff), F(0))
+        if pre is not None:
+            want_ph = pre * F(cls["s"] + cls["l"], cls["s"] + cls["l"] + cls["p"])
+            want_lg = F(cls["s"], cls["s"] + cls["l"])
+            if not core.close(obs["phys"], float(want_ph)) or not core.close(obs["logical"], float(want_lg)):
+                return ("violation", "replay:performances-are-not-the-observed-frequencies",
+                        f"reported ({obs['phys']}, {obs['logical']}), the shots give ({float(want_ph)}, "
+                        f"{float(want_lg)}) = {cls}")
+    # the documented pool order
+    batches, pools = {}, {}
+    for key, _n, outs in rec["backend"]:
+        batches.setdefault(tuple(key), []).append(list(outs))
+    for j, (seen_in, _out) in enumerate(rec["det"]):
         comps = inputs[j]
         total = None
         for c in comps:
@@ -3020,40 +3290,16 @@ def oracle_replay(call, rec, obs):
                 elif batches.get(k):
                     pools[k] = batches[k].pop(0)
                 else:
-                    return ("replay:draw-used-twice-or-never-made",
-                            f"shot {j} needs an output for input {c} but every recorded draw of it is used")
+                    return ("broken", "replay:pool-order", f"shot {j} needs an output for input {c} but every "
+                                                           f"recorded batch of it is used up")
             d = pools[k].pop()
             total = d if total is None else [a + b for a, b in zip(total, d)]
-        if sum(comps[0]) == 0 and len(comps) == 1 and list(seen_in) != total:
+        if sum(comps[0]) == 0 and len(comps) == 1:
             total = list(seen_in)     # vacuum pools prepared without the backend hold the input itself
         if list(seen_in) != total:
-            return ("replay:detectors-see-another-state",
-                    f"shot {j}: the components {comps} drew outputs summing to {total}, the detectors were handed "
-                    f"{seen_in}")
-        if mode == "none" and list(seen_out) != list(seen_in):
-            return ("replay:pnr-detection-changes-state", f"shot {j}: {seen_in} -> {seen_out}")
-        if mode == "threshold" and list(seen_out) != [min(1, x) for x in seen_in]:
-            return ("replay:threshold-detection-wrong", f"shot {j}: {seen_in} -> {seen_out}")
-        c = classify_full(call, list(seen_out))
-        cls[c] += 1
-        if c == "s":
-            expected.append([x for i, x in enumerate(seen_out) if call["keep"] or i not in her])
-    if obs["results"] != expected:
-        return ("replay:samples-are-not-the-selected-shots",
-                f"returned {obs['results'][:6]}… ({len(obs['results'])}), the selected shots are {expected[:6]}… "
-                f"({len(expected)})")
-    if cls["s"]:
-        pre = F(rec["table"][0][2]) if isinstance(call["svd"], tuple) and rec["table"] else None
-        if pre is None and not isinstance(call["svd"], tuple):
-            eff = call["filter"] + sum(her.values())
-            pre = F(1) - sum((F(float(p)) for sv, p in call["svd"].items() if sv[0].n < eff), F(0))
-        if pre is not None:
-            want_ph = pre * F(cls["s"] + cls["l"], cls["s"] + cls["l"] + cls["p"])
-            want_lg = F(cls["s"], cls["s"] + cls["l"])
-            if not core.close(obs["phys"], float(want_ph)) or not core.close(obs["logical"], float(want_lg)):
-                return ("replay:performances-are-not-the-observed-frequencies",
-                        f"reported ({obs['phys']}, {obs['logical']}), the shots give ({float(want_ph)}, "
-                        f"{float(want_lg)}) = {cls}")
+            return ("broken", "replay:pool-order",
+                    f"shot {j}: the next unused draws of the components {comps} sum to {total}, the detectors were "
+                    f"handed {seen_in}")
     return None
 
 
@@ -3228,8 +3474,10 @@ def judge_replay(chk, case, count=True):
             chk.count("replay_shots", min(rep.get("shots", 0) // 50 * 50, 1000) if "shots" in rep else "-")
         if tie:
             chk.branch("replay-float-tie-skipped")
+    if direct is not None and direct[0] == "violation":
+        return ("violation", direct[1], f"{case['via']} request ms={case['ms']} sh={case['sh']}: {direct[2]}", replay)
     if direct is not None:
-        return ("violation", direct[0], f"{case['via']} request ms={case['ms']} sh={case['sh']}: {direct[1]}", replay)
+        return ("broken", direct[1], f"{case['via']} request ms={case['ms']} sh={case['sh']}: {direct[2]}", replay)
     if diff is not None and not tie:
         return ("broken", "replay:model-vs-code", f"{case['via']} request ms={case['ms']} sh={case['sh']}: {diff}",
                 replay)
@@ -3448,6 +3696,25 @@ def replay_one(chk, rp):
             chk.fail(*res)
     elif part == "seed":
         seed_part(chk, [rp.get("seed", 0), (rp.get("seed", 0) + 1) % 2 ** 32], only=rp.get("path"))
+    elif part == "replayrec":
+        # the draws are random: the stored seed first, then its successors
+        res = None
+        for k in range(40):
+            res = judge_replay(chk, dict(rp["case"], seed=(rp["case"]["seed"] + k) % 2 ** 31), count=(k == 0))
+            if res is not None:
+                break
+        chk.case(("F", "replay", rp["case"]["seed"]), nontrivial=True)
+        if res is not None:
+            chk.fail(*res)
+    elif part == "provconst":
+        provider_constants(chk)
+    elif part == "drawing":
+        res = judge_drawing(chk, rp["case"])
+        chk.case(("D", "replay"), nontrivial=True)
+        if res is not None:
+            chk.fail(*res)
+    elif part == "s2p":
+        drawing_part(chk, 0)
     elif part in ("count", "c2p"):
         conversions(chk, 50)
     else:
@@ -3514,6 +3781,14 @@ def run(chk: core.Check):
         "series-step-detectors", "series-step-mutate", "series-step-fresh",
         "series-mutate-filter", "series-mutate-noise", "series-mutate-ps", "series-mutate-input",
         "seed-path-fresh-objects", "seed-path-long-lived-objects",
+        "drawing-sample", "drawing-p2s", "drawing-sc2s", "drawing-vacuum-left-out",
+        "drawing-count-from-table-total", "drawing-raise:RuntimeError", "samples->probs", "roundtrip-counts-probs-counts",
+        "replay-provider-constants", "replay-path:loop", "replay-path:fast", "replay-path:none",
+        "replay-source-route", "replay-distribution-route", "replay-generator-asked-again", "replay-pool-refilled",
+        "replay-pool-refilled-twice", "replay-tagged-input-merged", "replay-detector-draws",
+        "replay-threshold-detectors", "replay-physical-rejection", "replay-logical-rejection",
+        "replay-heralded-modes-removed", "replay-heralded-modes-kept", "replay-stopped-by-shots",
+        "replay-stopped-by-samples", "replay-shots-rescaled", "replay-vacuum-input",
     ]
     chk.lean = core.LeanDriver("C09")
     rng = chk.rng
@@ -3549,7 +3824,10 @@ def run(chk: core.Check):
 
     timed("B probs_to_sample_count", p2sc_part)
     timed("B conversions", conversions, chk, chk.pick(300, 2000))
+    timed("B3 drawing conversions", drawing_part, chk, chk.pick(600, 5000))
     timed("B2 totals (real generators)", totals_part, chk, chk.pick(3000, 20000))
+    # F
+    timed("F exact replay of recorded draws", replay_part, chk, chk.pick(400, 3000))
     # C
     timed("C limits", limits_part, chk, chk.pick(6, 24))
     timed("C2 Sampler on strong simulation", strong_part, chk, chk.pick(16, 60), chk.pick(60, 120))
